@@ -21,7 +21,7 @@ def RAISE_ORACLE(profile):
 FAULT_KINDS = ['empty_avail', 'bad_avail_keys_kept', 'nan_inplace', 'hess_without_grad_kept', 'pandas_dropped_column', 'pandas_added_column', 'absent_column', 'dup_name', 'draws_outside', 'rv_outside', 'hess_without_grad', 'bad_choice_key',
                'bad_avail_keys', 'nan_data', 'text_data', 'empty_data', 'panel_outside', 'nests_overlap',
                'nests_outside', 'nests_overlap_far', 'panel_outside_mc', 'missing_read', 'missing_unread',
-               'mc_catalog_switch', 'cnl_outside', 'catalog_entry_fault']
+               'mc_catalog_switch', 'cnl_outside', 'catalog_entry_fault', 'column_renamed_before_simulate']
 
 
 def make_config(rng, profile, tier):
